@@ -161,7 +161,7 @@ impl Prop for C12 {
     type Case = Case;
     const ID: &'static str = "C12";
     const FUZZ_TARGET: Option<&'static str> = Some("edit_diff");
-    const FUZZ_RUNS: u64 = 3000000;
+    const FUZZ_RUNS: u64 = 1600000;
     fn fuzz_decode(bytes: &[u8]) -> Option<Case> {
         crate::fuzzdec::c12(bytes)
     }
